@@ -153,3 +153,147 @@ pub fn s_global() {
     }
     emit();
 }
+
+// ------------------------------------------------------------------------------------------------ macro argument forms
+/// What each call site below spells, in call order: (operation, name, labels "k=v,k2=v2", level, target, unit, description).
+/// The same table is read by the check (expected delivery) and by the native replay.
+pub const FORMS: &[(&str, &str, &str, &str, &str, &str, &str)] = &[
+    ("register_counter", "c_lit", "", "INFO", "mirharness", "", ""),
+    ("register_counter", "c_lab", "k=v", "INFO", "mirharness", "", ""),
+    ("register_counter", "c_tl", "k=v,k2=v2", "DEBUG", "tgt", "", ""),
+    ("register_counter", "c_l", "", "ERROR", "mirharness", "", ""),
+    ("register_counter", "c_t", "a=b", "INFO", "t3", "", ""),
+    ("register_gauge", "g_lit", "", "INFO", "mirharness", "", ""),
+    ("register_gauge", "g_l", "k=v", "TRACE", "mirharness", "", ""),
+    ("register_gauge", "g_t", "", "INFO", "t4", "", ""),
+    ("register_gauge", "g_tl", "", "WARN", "t5", "", ""),
+    ("register_histogram", "h_lit", "x=y", "INFO", "mirharness", "", ""),
+    ("register_histogram", "h_l", "", "WARN", "mirharness", "", ""),
+    ("register_histogram", "h_t", "", "INFO", "t6", "", ""),
+    ("register_histogram", "h_tl", "p=q", "DEBUG", "t7", "", ""),
+    ("describe_counter", "c_lit", "", "", "", "bytes", "desc1"),
+    ("describe_counter", "c_lab", "", "", "", "", "desc1b"),
+    ("describe_gauge", "g_lit", "", "", "", "seconds", "desc2"),
+    ("describe_gauge", "g_l", "", "", "", "", "desc2b"),
+    ("describe_histogram", "h_lit", "", "", "", "count", "desc3"),
+    ("describe_histogram", "h_l", "", "", "", "", "desc3b"),
+    // m_dynamic: call sites reached twice with different computed names
+    ("register_counter", "n1", "k=v", "INFO", "mirharness", "", ""),
+    ("register_counter", "n2", "k=v", "INFO", "mirharness", "", ""),
+    ("register_gauge", "x1", "", "INFO", "mirharness", "", ""),
+    ("register_gauge", "x2", "", "INFO", "mirharness", "", ""),
+    ("register_histogram", "y1", "k=v", "ERROR", "mirharness", "", ""),
+    ("register_histogram", "y2", "k=v", "ERROR", "mirharness", "", ""),
+];
+
+// every call site lives in a function of its own: the statics the macros create (METRIC_KEY, LABELS, METADATA) then have unique names
+fn f01() {
+    let _ = metrics::counter!("c_lit");
+}
+fn f02() {
+    let _ = metrics::counter!("c_lab", "k" => "v");
+}
+fn f03() {
+    let _ = metrics::counter!(target: "tgt", level: metrics::Level::DEBUG, "c_tl", "k" => "v", "k2" => "v2");
+}
+fn f04() {
+    let _ = metrics::counter!(level: metrics::Level::ERROR, "c_l");
+}
+fn f05() {
+    let _ = metrics::counter!(target: "t3", "c_t", "a" => "b");
+}
+fn f06() {
+    let _ = metrics::gauge!("g_lit");
+}
+fn f07() {
+    let _ = metrics::gauge!(level: metrics::Level::TRACE, "g_l", "k" => "v");
+}
+fn f08() {
+    let _ = metrics::gauge!(target: "t4", "g_t");
+}
+fn f09() {
+    let _ = metrics::gauge!(target: "t5", level: metrics::Level::WARN, "g_tl");
+}
+fn f10() {
+    let _ = metrics::histogram!("h_lit", "x" => "y");
+}
+fn f11() {
+    let _ = metrics::histogram!(level: metrics::Level::WARN, "h_l");
+}
+fn f12() {
+    let _ = metrics::histogram!(target: "t6", "h_t");
+}
+fn f13() {
+    let _ = metrics::histogram!(target: "t7", level: metrics::Level::DEBUG, "h_tl", "p" => "q");
+}
+fn f14() {
+    metrics::describe_counter!("c_lit", metrics::Unit::Bytes, "desc1");
+}
+fn f15() {
+    metrics::describe_counter!("c_lab", "desc1b");
+}
+fn f16() {
+    metrics::describe_gauge!("g_lit", metrics::Unit::Seconds, "desc2");
+}
+fn f17() {
+    metrics::describe_gauge!("g_l", "desc2b");
+}
+fn f18() {
+    metrics::describe_histogram!("h_lit", metrics::Unit::Count, "desc3");
+}
+fn f19() {
+    metrics::describe_histogram!("h_l", "desc3b");
+}
+
+pub fn m_forms() {
+    unsafe {
+        metrics::with_local_recorder(rec(1), || {
+            mark_install(1);
+            f01();
+            f02();
+            f03();
+            f04();
+            f05();
+            f06();
+            f07();
+            f08();
+            f09();
+            f10();
+            f11();
+            f12();
+            f13();
+            f14();
+            f15();
+            f16();
+            f17();
+            f18();
+            f19();
+        });
+        mark_scope_end(1);
+    }
+}
+
+fn dyn_counter(n: String) {
+    let _ = metrics::counter!(n, "k" => "v");
+}
+fn dyn_gauge(n: String) {
+    let _ = metrics::gauge!(n);
+}
+fn dyn_histogram(n: String) {
+    let _ = metrics::histogram!(level: metrics::Level::ERROR, n, "k" => "v");
+}
+
+pub fn m_dynamic() {
+    unsafe {
+        metrics::with_local_recorder(rec(1), || {
+            mark_install(1);
+            dyn_counter(String::from("n1"));
+            dyn_counter(String::from("n2"));
+            dyn_gauge(String::from("x1"));
+            dyn_gauge(String::from("x2"));
+            dyn_histogram(String::from("y1"));
+            dyn_histogram(String::from("y2"));
+        });
+        mark_scope_end(1);
+    }
+}
